@@ -446,6 +446,12 @@ def evaluate_arithmetic(op, lval, rval):
 
 
 def evaluate_logic(op, lval, rval):
+    for _ in range(2):
+        # a one-cell range ([[v]]) or one-item array is its item, as under the arithmetic operators
+        if isinstance(lval, list) and len(lval) == 1:
+            lval = lval[0]
+        if isinstance(rval, list) and len(rval) == 1:
+            rval = rval[0]
     if isinstance(lval, error.XLError):
         return lval
     if isinstance(rval, error.XLError):
